@@ -200,7 +200,7 @@ Proof.
         -- destruct ((c =? 125) && is_capture_slot env capnum); [|apply Hlit].
            intros H; inversion H; subst. cbn [length] in *. split; [lia|right; right; reflexivity].
   - destruct (angled && is_group_name_start is_word_char is_ecma_start env ch).
-    + destruct (scan_capname (ch :: q1)) as [[name q2]| | |] eqn:E; try discriminate. cbn [bind].
+    + destruct (scan_capname (ch :: q1)) as [[name q2]| | |] eqn:E; try discriminate; [|apply Hlit].
       apply scan_capname_len in E. destruct q2 as [|c q3]; [apply Hlit|].
       destruct ((c =? 125) && is_capture_name env name); [|apply Hlit].
       intros H; inversion H; subst. cbn [length] in *. split; [lia|right; right; reflexivity].
@@ -220,7 +220,8 @@ Proof.
     + cbn [negb andb]. apply good_bind; [apply scan_decimal_go_good|]. intros [capnum q2] _.
       destruct q2 as [|c q3]; [exact I|]. destruct ((c =? 125) && is_capture_slot env capnum); exact I.
     + cbn [andb negb]. destruct (is_group_name_start is_word_char is_ecma_start env ch); [|exact I].
-      apply good_bind; [apply scan_capname_good|]. intros [name q2] _.
+      pose proof (scan_capname_good (ch :: q1)) as Hg.
+      destruct (scan_capname (ch :: q1)) as [[name q2]| | |]; try exact I; try contradiction.
       destruct q2 as [|c q3]; [exact I|]. destruct ((c =? 125) && is_capture_name env name); exact I.
   - destruct (is_digit ch0).
     + cbn [negb andb]. destruct (use_e env).
@@ -646,48 +647,66 @@ Qed.
 Fixpoint span_ecma (first : bool) (p : list Z) : list Z * list Z :=
   match p with
   | [] => ([], [])
-  | ch :: p' => if (if first then is_ecma_start ch else is_ecma_char ch)
+  | ch :: p' => if negb (ch =? 92) && (if first then is_ecma_start ch else is_ecma_char ch)
                 then let '(a, b) := span_ecma false p' in (ch :: a, b)
                 else ([], p)
   end.
 
-Lemma scan_ecma_capname_go_plain (fuel : nat) (index : Z) (acc p : list Z) :
-  (length p < fuel)%nat -> 0 <= index -> ~ In 92 p ->
+Lemma no_u_escape_app (a b : list Z) : no_u_escape (a ++ b) -> no_u_escape b.
+Proof. intros H pre post E. apply (H (a ++ pre) post). rewrite E, app_assoc. reflexivity. Qed.
+
+(* without a "\u" in the text the name scanner stops with an error at the first backslash *)
+Lemma scan_ecma_capname_go_nou (fuel : nat) (index : Z) (acc p : list Z) :
+  (length p < fuel)%nat -> 0 <= index -> no_u_escape p ->
   scan_ecma_capname_go is_ecma_start is_ecma_char env fuel index acc p =
-  Ok (acc ++ fst (span_ecma (index =? 0) p), snd (span_ecma (index =? 0) p)).
+  match snd (span_ecma (index =? 0) p) with
+  | c :: _ => if c =? 92 then Err E_InvalidECMAName
+              else Ok (acc ++ fst (span_ecma (index =? 0) p), snd (span_ecma (index =? 0) p))
+  | [] => Ok (acc ++ fst (span_ecma (index =? 0) p), snd (span_ecma (index =? 0) p))
+  end.
 Proof.
   revert index acc p. induction fuel as [|f IH]; intros index acc p Hf Hi Hn; [lia|].
   cbn [scan_ecma_capname_go]. destruct p as [|ch p1]; cbn [span_ecma fst snd].
   - rewrite app_nil_r. reflexivity.
-  - destruct (ch =? 92) eqn:E92; [exfalso; apply Hn; left; lia|].
-    destruct (if index =? 0 then is_ecma_start ch else is_ecma_char ch) eqn:Ev; cbn [negb].
-    + rewrite IH; [|cbn [length] in Hf; lia|lia|intros Hc; apply Hn; right; exact Hc].
-      replace (index + 1 =? 0) with false by lia.
-      destruct (span_ecma false p1) as [a b]. cbn [fst snd]. rewrite <- app_assoc. reflexivity.
-    + cbn [fst snd]. rewrite app_nil_r. reflexivity.
+  - destruct (ch =? 92) eqn:E92; cbn [negb andb fst snd].
+    + rewrite E92. destruct p1 as [|u p2]; [reflexivity|].
+      destruct (u =? 117) eqn:Eu; [|reflexivity].
+      exfalso. apply (Hn [] p2). cbn [app]. f_equal; [lia|f_equal; lia].
+    + assert (no_u_escape p1) as Hn1 by (apply (no_u_escape_app [ch]); exact Hn).
+      destruct (if index =? 0 then is_ecma_start ch else is_ecma_char ch) eqn:Ev; cbn [negb].
+      * rewrite IH; [|cbn [length] in Hf; lia|lia|exact Hn1].
+        replace (index + 1 =? 0) with false by lia.
+        destruct (span_ecma false p1) as [a b]. cbn [fst snd]. rewrite <- app_assoc. reflexivity.
+      * cbn [fst snd]. rewrite E92, app_nil_r. reflexivity.
 Qed.
 
 Lemma span_ecma_false_spec (p a b : list Z) :
   span_ecma false p = (a, b) ->
-  p = a ++ b /\ Forall (fun c => is_ecma_char c = true) a /\
-  (b = [] \/ exists c b', b = c :: b' /\ is_ecma_char c = false).
+  p = a ++ b /\ Forall (fun c => is_ecma_char c = true) a /\ ~ In 92 a /\
+  (b = [] \/ exists c b', b = c :: b' /\ (c = 92 \/ is_ecma_char c = false)).
 Proof.
   revert a b. induction p as [|ch p IH]; intros a b H; cbn [span_ecma] in H.
-  - inversion H; subst. split; [reflexivity|]. split; [constructor|left; reflexivity].
-  - destruct (is_ecma_char ch) eqn:E.
-    + destruct (span_ecma false p) as [a' b']. inversion H; subst.
-      destruct (IH _ _ eq_refl) as (H1 & H2 & H3).
-      split; [cbn [app]; congruence|]. split; [constructor; assumption|exact H3].
-    + inversion H; subst. split; [reflexivity|]. split; [constructor|right; eauto].
+  - inversion H; subst. split; [reflexivity|]. split; [constructor|]. split; [intros []|left; reflexivity].
+  - destruct (ch =? 92) eqn:E92; cbn [negb andb] in H.
+    + inversion H; subst. split; [reflexivity|]. split; [constructor|]. split; [intros []|].
+      right. exists ch, p. split; [reflexivity|left; lia].
+    + destruct (is_ecma_char ch) eqn:E.
+      * destruct (span_ecma false p) as [a' b']. inversion H; subst.
+        destruct (IH _ _ eq_refl) as (H1 & H2 & H3 & H4).
+        split; [cbn [app]; congruence|]. split; [constructor; assumption|]. split; [|exact H4].
+        intros [Hc|Hc]; [lia|contradiction].
+      * inversion H; subst. split; [reflexivity|]. split; [constructor|]. split; [intros []|].
+        right. exists ch, p. split; [reflexivity|right; exact E].
 Qed.
 
 Lemma span_ecma_false_unique (cs rest : list Z) (c : Z) :
-  Forall (fun x => is_ecma_char x = true) cs -> is_ecma_char c = false ->
+  Forall (fun x => is_ecma_char x = true) cs -> ~ In 92 cs -> is_ecma_char c = false ->
   span_ecma false (cs ++ c :: rest) = (cs, c :: rest).
 Proof.
-  intros HF Hc. induction HF as [|x cs Hx HF IH]; cbn [app span_ecma].
-  - rewrite Hc. reflexivity.
-  - rewrite Hx, IH. reflexivity.
+  intros HF Hn Hc. induction HF as [|x cs Hx HF IH]; cbn [app span_ecma].
+  - rewrite Hc, andb_false_r. reflexivity.
+  - replace (x =? 92) with false by (symmetry; apply Z.eqb_neq; intros ->; apply Hn; left; reflexivity).
+    cbn [negb andb]. rewrite Hx, IH; [reflexivity|]. intros Hi. apply Hn. right. exact Hi.
 Qed.
 
 End Names.
@@ -775,7 +794,7 @@ Lemma span_digits_of_app (ds r : list Z) (c : Z) (q : list Z) :
 Proof. intros Hd Hr ->. apply digit_split_unique; assumption. Qed.
 
 Lemma scan_dollar_sound (p : list Z) (nd : rnode) (rest : list Z) :
-  (use_e env = true -> ~ In 92 p) ->
+  (use_e env = true -> no_u_escape p) ->
   scan_dollar p = Ok (nd, rest) ->
   (exists it, dollar_form p it rest /\ items_of_node nd = [it]) \/
   ((forall it r, ~ dollar_form p it r) /\ nd = mk_one 36 /\ rest = p).
@@ -814,32 +833,49 @@ Proof.
       cbn [andb negb]. destruct (is_group_name_start is_word_char is_ecma_start env ch) eqn:Eg.
       * unfold Replace.scan_capname. unfold is_group_name_start in Eg. destruct (use_e env) eqn:Ee.
         -- (* ECMAScript *)
-           assert (~ In 92 (ch :: q1)) as Hn by (intros Hc; apply (Hbs eq_refl); right; exact Hc).
-           rewrite scan_ecma_capname_go_plain by (try lia; try exact Hn). cbn [bind Z.eqb].
+           assert (no_u_escape (ch :: q1)) as Hn by (apply (no_u_escape_app [123]); exact (Hbs eq_refl)).
+           assert (forall nd' rest', Ok (mk_one 36, 123 :: ch :: q1) = Ok (nd', rest') ->
+                     (forall it r, ~ dollar_form (123 :: ch :: q1) it r) ->
+                     (exists it, dollar_form (123 :: ch :: q1) it rest' /\ items_of_node nd' = [it]) \/
+                     ((forall it r, ~ dollar_form (123 :: ch :: q1) it r) /\ nd' = mk_one 36 /\ rest' = 123 :: ch :: q1)) as Hlit.
+           { intros nd' rest' H Hno. inversion H; subst. right. auto. }
+           rewrite scan_ecma_capname_go_nou by (try lia; try exact Hn). cbn [Z.eqb].
+           cbn [span_ecma]. destruct (ch =? 92) eqn:E92; cbn [negb andb fst snd].
+           { (* ${\ : the name scanner fails at once *)
+             rewrite E92. cbn [bind]. intros H. apply Hlit; [exact H|].
+             intros it r Hf. apply form_inv_brace in Hf as [(ds & H1 & H2 & H3 & H4 & H5)|[(name & H1 & H2 & H3 & H4 & H5 & H6 & H7 & H8)|(c & cs' & H1 & H2 & H3 & H4 & H5 & H6 & H7 & H8 & H9)]].
+             - assert (is_digit ch = true) as Hx by (eapply digits_hd; eauto). congruence.
+             - congruence.
+             - cbn [app] in H8. injection H8 as H8a H8b. apply H5. left. lia. }
            assert (is_ecma_start ch = true) as Hst.
-           { destruct (is_ecma_start ch); [reflexivity|]. cbn [orb] in Eg. exfalso. apply Hn. left. lia. }
-           cbn [span_ecma]. rewrite Hst.
+           { destruct (is_ecma_start ch); [reflexivity|]. cbn [orb] in Eg. lia. }
+           rewrite Hst.
            destruct (span_ecma is_ecma_start is_ecma_char false q1) as [cs b] eqn:Esp. cbn [fst snd app].
-           destruct (span_ecma_false_spec _ _ _ _ _ Esp) as (Hq & Hcs & Hb).
+           destruct (span_ecma_false_spec _ _ _ _ _ Esp) as (Hq & Hcs & Hn92 & Hb).
            assert (forall it r, dollar_form (123 :: ch :: q1) it r ->
                                 b = 125 :: r /\ is_capture_name env (map write_rune (ch :: cs)) = true) as Hinv.
            { intros it r Hf. apply form_inv_brace in Hf as [(ds & H1 & H2 & H3 & H4 & H5)|[(name & H1 & H2 & H3 & H4 & H5 & H6 & H7 & H8)|(c & cs' & H1 & H2 & H3 & H4 & H5 & H6 & H7 & H8 & H9)]].
              - exfalso. assert (is_digit ch = true) as Hx by (eapply digits_hd; eauto). congruence.
              - congruence.
              - cbn [app] in H8. injection H8 as H8a H8b. rewrite H8b in Esp.
-               rewrite (span_ecma_false_unique _ _ _ _ _ H4 H6) in Esp. inversion Esp; subst. auto. }
+               rewrite (span_ecma_false_unique _ _ _ _ _ H4) in Esp; [|intros Hi; apply H5; right; exact Hi|exact H6].
+               inversion Esp; subst. auto. }
            destruct b as [|c q3].
-           ++ intros H; inversion H; subst. right. split; [|auto].
+           ++ cbn [bind]. intros H. apply Hlit; [exact H|].
               intros it r Hf. destruct (Hinv _ _ Hf) as (Hx & _). discriminate.
-           ++ destruct ((c =? 125) && is_capture_name env (map write_rune (ch :: cs))) eqn:Ec.
+           ++ destruct (c =? 92) eqn:Ec92.
+              { (* the name runs into a backslash that starts no \u escape: literal *)
+                cbn [bind]. intros H. apply Hlit; [exact H|].
+                intros it r Hf. destruct (Hinv _ _ Hf) as (Hx & _). inversion Hx; subst. discriminate. }
+              cbn [bind].
+              destruct ((c =? 125) && is_capture_name env (map write_rune (ch :: cs))) eqn:Ec.
               ** intros H; inversion H; subst. left. eexists. split; [|reflexivity].
                  assert (c = 125) as -> by lia.
                  change (123 :: ch :: cs ++ 125 :: rest) with (123 :: (ch :: cs) ++ 125 :: rest).
                  apply DF_bname_ecma; try assumption; try lia.
-                 --- intros Hc. apply Hn. destruct Hc as [Hc|Hc]; [left; exact Hc|right].
-                     apply in_or_app. left. exact Hc.
-                 --- destruct Hb as [Hb|(c' & b' & Hb & Hc')]; [discriminate|]. inversion Hb; subst. exact Hc'.
-              ** intros H; inversion H; subst. right. split; [|auto].
+                 --- intros [Hc|Hc]; [lia|apply Hn92; exact Hc].
+                 --- destruct Hb as [Hb|(c' & b' & Hb & [Hc'|Hc'])]; [discriminate| |]; inversion Hb; subst; [discriminate|exact Hc'].
+              ** intros H. apply Hlit; [exact H|].
                  intros it r Hf. destruct (Hinv _ _ Hf) as (Hx & Hs). inversion Hx; subst. lia.
         -- (* .NET names *)
            cbn [bind]. destruct (scan_word is_word_char (ch :: q1)) as [name b] eqn:Esw.
@@ -1047,8 +1083,9 @@ Proof.
       * destruct q2 as [|c q3]; [cbn [andb]; apply Hlit|].
         destruct (c =? 125); cbn [andb]; [apply Hk|apply Hlit].
   - destruct (angled && is_group_name_start is_word_char is_ecma_start env ch).
-    + destruct (scan_capname is_word_char is_ecma_start is_ecma_char env (ch :: q1)) as [[name q2]| | |] eqn:E; try discriminate.
-      cbn [bind]. destruct q2 as [|c q3]; [apply Hlit|].
+    + destruct (scan_capname is_word_char is_ecma_start is_ecma_char env (ch :: q1)) as [[name q2]| | |] eqn:E; try discriminate;
+        [|apply Hlit].
+      destruct q2 as [|c q3]; [apply Hlit|].
       destruct (c =? 125); cbn [andb]; [|apply Hlit].
       destruct (is_capture_name env name) eqn:En; [|apply Hlit].
       intros H; inversion H; subst. apply ref_node_wf. apply name_ref_ok. exact En.
@@ -1113,8 +1150,21 @@ Proof.
   apply IH; [intros Hc; apply Hn; right; exact Hc|exact Hs].
 Qed.
 
+Lemma dollar_form_suffix (p : list Z) (it : item) (rest : list Z) :
+  dollar_form is_word_char is_ecma_start is_ecma_char env p it rest -> exists pre, p = pre ++ rest.
+Proof.
+  intros H. destruct H.
+  - exists [36]. reflexivity.
+  - exists [c]. reflexivity.
+  - exists ds. reflexivity.
+  - exists ds. reflexivity.
+  - exists (123 :: ds ++ [125]). cbn [app]. rewrite <- app_assoc. reflexivity.
+  - exists (123 :: name ++ [125]). cbn [app]. rewrite <- app_assoc. reflexivity.
+  - exists (123 :: (c :: cs) ++ [125]). cbn [app]. rewrite <- app_assoc. reflexivity.
+Qed.
+
 Lemma scan_replacement_go_sound (fuel : nat) (p : list Z) (nodes : list rnode) :
-  (use_e env = true -> ~ In 92 p) ->
+  (use_e env = true -> no_u_escape p) ->
   scan_replacement_go fuel p = Ok nodes -> rep_spec p (items_of_nodes nodes).
 Proof.
   revert p nodes. induction fuel as [|f IH]; intros p nodes Hbs H; [discriminate|]. cbn [Replace.scan_replacement_go] in H.
@@ -1129,18 +1179,15 @@ Proof.
     cbn [bind] in H.
     destruct (scan_replacement_go f rest') as [more| | |] eqn:E2; try discriminate. cbn [bind] in H.
     inversion H; subst nodes. rewrite items_of_nodes_app, items_of_add_to_concatenate. rewrite Hp.
-    assert (use_e env = true -> ~ In 92 after) as Hbs1.
-    { intros He Hc. apply (Hbs He). rewrite Hp. apply in_or_app. right. right. exact Hc. }
+    assert (use_e env = true -> no_u_escape after) as Hbs1.
+    { intros He. apply (no_u_escape_app (run ++ [36])). rewrite <- app_assoc. cbn [app]. rewrite <- Hp. exact (Hbs He). }
     apply rep_spec_run; [exact Hrun|].
     unfold items_of_nodes. cbn [flat_map]. fold (items_of_nodes more).
     apply scan_dollar_sound in E; [|exact Hbs1].
     destruct E as [(it & Hf & Hit)|(Hno & -> & ->)].
     + rewrite Hit. cbn [app]. eapply RS_form; [exact Hf|]. apply IH; [|exact E2].
-      intros He Hc. apply (Hbs1 He).
-      (* rest' is a suffix of after: every rune of rest' occurs in after *)
-      clear - Hf Hc. revert Hc. generalize 92. intros x Hc.
-      inversion Hf; subst; try (right; exact Hc); try (apply in_or_app; right; exact Hc);
-        try (right; apply in_or_app; right; right; exact Hc).
+      intros He. destruct (dollar_form_suffix _ _ _ Hf) as (pre & Hpre).
+      apply (no_u_escape_app pre). rewrite <- Hpre. exact (Hbs1 He).
     + cbn [items_of_node mk_one n_t n_ch Z.eqb app]. change (rg_NtOne =? rg_NtMulti) with false.
       change (rg_NtOne =? rg_NtOne) with true. cbn [app].
       apply RS_literal; [exact Hno|]. apply IH; [exact Hbs1|exact E2].
@@ -1168,7 +1215,7 @@ Lemma new_replacer_data_spec (rep : list Z) (d : rdata) :
   new_replacer_data rep = Ok d ->
   data_ok d n /\
   exists toks, toks_of d = Some toks /\
-    ((use_e env = true -> ~ In 92 rep) ->
+    ((use_e env = true -> no_u_escape rep) ->
      exists items, rep_spec rep items /\ toks = compile_items env items []).
 Proof.
   unfold Replace.new_replacer_data, scan_replacement.
@@ -1365,8 +1412,10 @@ Proof.
       * exfalso. destruct ds' as [|d ds']; [contradiction|]. rewrite B3 in A8. cbn [app] in A8. inversion A8; subst.
         inversion B2; subst. congruence.
       * rewrite A8 in B8. cbn [app] in B8. inversion B8 as [[Ha Hq]]. subst a'.
-        pose proof (span_ecma_false_unique is_ecma_start is_ecma_char cs r 125 A4 A6) as E1.
-        pose proof (span_ecma_false_unique is_ecma_start is_ecma_char cs' r' 125 B4 B6) as E2.
+        assert (~ In 92 cs) as A5' by (intros Hi; apply A5; right; exact Hi).
+        assert (~ In 92 cs') as B5' by (intros Hi; apply B5; right; exact Hi).
+        pose proof (span_ecma_false_unique is_ecma_start is_ecma_char cs r 125 A4 A5' A6) as E1.
+        pose proof (span_ecma_false_unique is_ecma_start is_ecma_char cs' r' 125 B4 B5' B6) as E2.
         rewrite Hq in E1. rewrite E1 in E2. inversion E2; subst. auto.
     + apply form_inv_other in H1 as (-> & A); try assumption. apply form_inv_other in H2 as (-> & B); try assumption.
       split; [|reflexivity].
@@ -1402,11 +1451,10 @@ Variable is_ecma_start : Z -> bool.
 Variable is_ecma_char : Z -> bool.
 Variable env : penv.
 
-(* ErrCaptureGroupOutOfRange; in ECMAScript mode also a malformed ${name}: ErrInvalidECMAGroupName,
-   ErrTooFewHex, ErrInvalidHex, ErrMissingBrace *)
-Definition err_ok (c : Z) : Prop :=
-  c = E_CapOutOfRange \/
-  (use_e env = true /\ (c = E_InvalidECMAName \/ c = E_TooFewHex \/ c = E_InvalidHex \/ c = E_MissingBrace)).
+(* ErrCaptureGroupOutOfRange is the only error: since /repo 273146b the errors of the ECMAScript name
+   scanner (ErrInvalidECMAGroupName, ErrTooFewHex, ErrInvalidHex, ErrMissingBrace) are swallowed by
+   scanDollar, which copies the '$' literally instead *)
+Definition err_ok (c : Z) : Prop := c = E_CapOutOfRange.
 
 Lemma scan_decimal_go_err (i : Z) (p : list Z) (c : Z) : scan_decimal_go i p = Err c -> c = E_CapOutOfRange.
 Proof.
@@ -1427,45 +1475,6 @@ Proof.
   - eapply IH; exact H.
 Qed.
 
-Lemma scan_hex_loop_err (k : nat) (i : Z) (p : list Z) (c : Z) : scan_hex_loop k i p = Err c -> c = E_TooFewHex.
-Proof.
-  revert i p. induction k as [|k IH]; intros i p H; cbn [scan_hex_loop] in H; [discriminate|].
-  destruct p as [|ch p]; [inversion H; reflexivity|].
-  destruct (hex_digit ch <? 0); [inversion H; reflexivity|]. eapply IH; exact H.
-Qed.
-Lemma scan_hex_err (k : nat) (p : list Z) (c : Z) : scan_hex k p = Err c -> c = E_TooFewHex.
-Proof. unfold scan_hex. destruct (Nat.leb k (length p)); [apply scan_hex_loop_err|intros H; inversion H; reflexivity]. Qed.
-Lemma scan_hex_brace_err (i : Z) (has : bool) (p : list Z) (c : Z) :
-  scan_hex_brace i has p = Err c -> c = E_TooFewHex \/ c = E_InvalidHex \/ c = E_MissingBrace.
-Proof.
-  revert i has. induction p as [|ch p IH]; intros i has H; cbn [scan_hex_brace] in H.
-  - inversion H; auto.
-  - destruct (ch =? 125).
-    + destruct has; [discriminate|]. inversion H; auto.
-    + destruct (hex_digit ch <? 0); [inversion H; auto|].
-      destruct (1114111 <? i * 16 + hex_digit ch); [inversion H; auto|]. eapply IH; exact H.
-Qed.
-
-Lemma scan_ecma_capname_go_err (fuel : nat) (index : Z) (acc p : list Z) (c : Z) :
-  scan_ecma_capname_go is_ecma_start is_ecma_char env fuel index acc p = Err c ->
-  c = E_InvalidECMAName \/ c = E_TooFewHex \/ c = E_InvalidHex \/ c = E_MissingBrace.
-Proof.
-  revert index acc p. induction fuel as [|f IH]; intros index acc p H; cbn [scan_ecma_capname_go] in H; [discriminate|].
-  destruct p as [|ch p1]; [discriminate|].
-  destruct (ch =? 92).
-  - destruct p1 as [|u p2]; [inversion H; auto|]. destruct (negb (u =? 117)); [inversion H; auto|].
-    match type of H with bind ?X _ = _ => destruct X as [[v p3]|e| |] eqn:EX end; cbn [bind] in H; try discriminate.
-    + destruct (negb (if index =? 0 then is_ecma_start v else is_ecma_char v)); [inversion H; auto|].
-      eapply IH; exact H.
-    + inversion H; subst e. destruct p2 as [|b p2'].
-      * apply scan_hex_err in EX. auto.
-      * destruct (b =? 123).
-        -- destruct (use_u env); [|inversion EX; auto]. apply scan_hex_brace_err in EX. tauto.
-        -- apply scan_hex_err in EX. auto.
-  - destruct (negb (if index =? 0 then is_ecma_start ch else is_ecma_char ch)); [discriminate|].
-    eapply IH; exact H.
-Qed.
-
 Lemma scan_dollar_err (p : list Z) (c : Z) :
   scan_dollar is_word_char is_ecma_start is_ecma_char env p = Err c -> err_ok c.
 Proof.
@@ -1477,19 +1486,14 @@ Proof.
     + destruct (ecma_digits env (ch - 48) (if is_capture_slot env (ch - 48) then Some (ch - 48, q1) else None) q1)
         as [r|e| |] eqn:E; cbn [bind]; try discriminate.
       * destruct r as [[capnum rest']|]; [destruct (0 <=? capnum)|]; discriminate.
-      * intros H; inversion H; subst e. left. eapply ecma_digits_err; exact E.
+      * intros H; inversion H; subst e. eapply ecma_digits_err; exact E.
     + unfold scan_decimal. destruct (scan_decimal_go 0 (ch :: q1)) as [[capnum q2]|e| |] eqn:E; cbn [bind]; try discriminate.
       * destruct (negb angled); [destruct (true && is_capture_slot env capnum); discriminate|].
         destruct q2 as [|x q3]; [discriminate|]. destruct ((x =? 125) && is_capture_slot env capnum); discriminate.
-      * intros H; inversion H; subst e. left. eapply scan_decimal_go_err; exact E.
+      * intros H; inversion H; subst e. eapply scan_decimal_go_err; exact E.
   - destruct (angled && is_group_name_start is_word_char is_ecma_start env ch).
-    + unfold scan_capname. destruct (use_e env) eqn:Ee.
-      * destruct (scan_ecma_capname_go is_ecma_start is_ecma_char env (S (length (ch :: q1))) 0 [] (ch :: q1))
-          as [[a r]|e| |] eqn:E; cbn [bind]; try discriminate.
-        -- destruct r as [|x q3]; [discriminate|]. destruct ((x =? 125) && is_capture_name env (map write_rune a)); discriminate.
-        -- intros H; inversion H; subst e. right. split; [exact Ee|]. eapply scan_ecma_capname_go_err; exact E.
-      * cbn [bind]. destruct (scan_word is_word_char (ch :: q1)) as [a r].
-        destruct r as [|x q3]; [discriminate|]. destruct ((x =? 125) && is_capture_name env a); discriminate.
+    + destruct (scan_capname is_word_char is_ecma_start is_ecma_char env (ch :: q1)) as [[name q2]|e| |]; try discriminate.
+      destruct q2 as [|x q3]; [discriminate|]. destruct ((x =? 125) && is_capture_name env name); discriminate.
     + destruct (negb angled); [|discriminate]. destruct (ch =? 36); [discriminate|].
       destruct (negb (special_capnum ch =? 1)); discriminate.
 Qed.
@@ -1563,7 +1567,7 @@ Proof. intros. eapply replace_string_amp; eassumption. Qed.
 Lemma thm_parser_spec_partial :
   forall env n rep d,
     env_ok env n -> new_replacer_data env rep = Ok d ->
-    (use_e env = true -> ~ In 92 rep) ->
+    (use_e env = true -> no_u_escape rep) ->
     exists items, rep_spec env rep items /\ toks_of d = Some (compile_items env items []).
 Proof.
   intros env n rep d Henv Hd Hbs.
@@ -1591,8 +1595,7 @@ Proof. intros env rep. exact (new_replacer_data_good is_word_char is_ecma_start 
 Lemma thm_error_codes :
   forall env rep c,
     new_replacer_data env rep = Err c ->
-    c = E_CapOutOfRange \/
-    (use_e env = true /\ (c = E_InvalidECMAName \/ c = E_TooFewHex \/ c = E_InvalidHex \/ c = E_MissingBrace)).
+    c = E_CapOutOfRange.
 Proof. intros env rep c H. exact (new_replacer_data_err _ _ _ env rep c H). Qed.
 
 End Statements.
